@@ -13,6 +13,7 @@ import (
 	"sync/atomic"
 
 	"github.com/ChrisTrenkamp/xsel"
+	"github.com/ChrisTrenkamp/xsel/store"
 
 	"xv/adoc"
 	"xv/impl"
@@ -479,6 +480,51 @@ func C15(c *run.Check) {
 			}
 		})
 		c.Distinct("builtin-calls")
+	}
+	// lang() with every argument x every xml:lang value up to length 3 over an
+	// alphabet with characters whose lower/upper-case forms change byte length
+	// (U+023A, U+023E, U+0130, U+212A, U+1E9E): case folding must never index
+	// past a string (seed-C15-p)
+	if c.Violations() == 0 {
+		alpha := []string{"a", "B", "-", "\u023a", "\u023e", "\u0130", "\u212a", "\u1e9e", "\u00e9"}
+		strs := []string{""}
+		for lo, l := 0, 0; l < 3; l++ {
+			hi := len(strs)
+			for _, pre := range strs[lo:hi] {
+				for _, a := range alpha {
+					strs = append(strs, pre+a)
+				}
+			}
+			lo = hi
+		}
+		roots := make([]store.Cursor, len(strs))
+		for i, v := range strs {
+			roots[i], _ = xsel.ReadXml(strings.NewReader(`<r xml:lang="` + v + `"><a/></r>`))
+		}
+		var bad atomic.Int64
+		run.ParallelW(len(strs), func(w, i int) {
+			if bad.Load() > 3 {
+				return
+			}
+			e := "boolean(//a[lang('" + strs[i] + "')])"
+			g, _ := BuildImpl(e)
+			if g == nil {
+				return
+			}
+			for j, root := range roots {
+				if root == nil {
+					continue
+				}
+				c.Evaluations.Add(1)
+				o := ExecImpl(nil, root, g, nil)
+				if o.Panic != "" || IsPanicErr(o) || o.Nil {
+					bad.Add(1)
+					c.Violation(c15Case{Kind: "well-typed", Input: strconv.Quote(e) + " on xml:lang=" + strconv.Quote(strs[j]), Detail: o.String()}, fmt.Sprintf("[lang case folding] %s on xml:lang=%q: %s", e, strs[j], o))
+					return
+				}
+			}
+		})
+		c.Distinct("lang-case-folding")
 	}
 	// Unmarshal: every field type x tag as *S, **S, *[]S, *[]T, *T and a few
 	// ill-shaped targets x results of every shape (empty / 1 / 2 nodes, string,
